@@ -251,7 +251,7 @@ func keysOf(m map[string]bool) []string {
 // ---- systems ----
 
 type scenario struct {
-	Kind     string   `json:"kind"` // single | chain | takeover | sliced
+	Kind     string   `json:"kind"` // single | chain | takeover | sliced | sliced-tail
 	N        int      `json:"phases"`
 	Mask     uint     `json:"delegated"`
 	Classes  []string `json:"classes"`
@@ -317,10 +317,14 @@ func system(sc scenario) *world.System {
 			}
 			if sc.Kind == "single" {
 				w.MustCreate(world.NewObjectSet("r1", osw.PhaseSpecs(osw.B1(sc.N, sc.Mask), 1), world.StdProbes()))
-			} else if sc.Kind == "sliced" {
+			} else if sc.Kind == "sliced" || sc.Kind == "sliced-tail" {
 				// the phases' objects live in ObjectSlices; a lagging cache may hide a slice from a pass
+				// (sliced-tail: the first phase keeps its objects inline, only the later ones are sliced)
 				ps := osw.PhaseSpecs(osw.B1(sc.N, sc.Mask), 1)
 				for i := range ps {
+					if sc.Kind == "sliced-tail" && i == 0 {
+						continue
+					}
 					name := fmt.Sprintf("r1-slice-%d", i)
 					w.MustCreate(&corev1alpha1.ObjectSlice{ObjectMeta: metav1.ObjectMeta{Name: name, Namespace: world.NS}, Objects: ps[i].Objects})
 					ps[i].Slices, ps[i].Objects = []string{name}, nil
@@ -387,6 +391,7 @@ func scenarios(quick bool) []scenario {
 		{Kind: "single", N: 2, Mask: 0, Classes: []string{"ready"}, Archive: true, Unarchives: 1},
 		{Kind: "takeover", N: 1, Classes: []string{"ready"}, Archive: true, Restarts: 1, Conflicts: 1},
 		{Kind: "sliced", N: 2, Mask: 0, Classes: two, Archive: true},
+		{Kind: "sliced-tail", N: 2, Mask: 0, Classes: two, Archive: true},
 		{Kind: "chain", N: 1, Classes: []string{"ready"}, Archive: true, LongLived: true},
 		{Kind: "single", N: 2, Mask: 0b10, Classes: []string{"ready"}, Pauses: 1, Delete: true, LongLived: true},
 		// stale0: the workload controller reports an explicit observedGeneration 0
